@@ -14,6 +14,14 @@ from .values import K, T, Obj, ListV, TupleV, SetV, DictV, show
 from .loader import AnalysisError
 
 
+STDLIB_PURE = {
+    'math.isclose', 'math.floor', 'math.trunc', 'math.fabs',
+    'encodings.normalize_encoding', 'urllib.parse.unquote',
+    'urllib.parse.quote', 'unicodedata.normalize', 'codecs.lookup',
+    'operator.add', 'operator.mul', 'operator.sub',
+}
+
+
 class CannotEval(Exception):
     pass
 
@@ -54,6 +62,8 @@ def ev(v, val, hooks=None):
                 return _BIN[a[0]](x, y)
             except ZeroDivisionError:
                 raise Raised('ZeroDivisionError')
+            except OverflowError:
+                raise Raised('OverflowError')
             except TypeError:
                 raise Raised('TypeError')
         if op == 'cmp':
@@ -105,6 +115,20 @@ def ev(v, val, hooks=None):
                 return round(*args)
             if name == 'divmod':
                 return divmod(args[0], args[1])
+        if op == 'call' and a[0] in STDLIB_PURE:
+            import importlib
+            modname, _, fname = a[0].rpartition('.')
+            fn = getattr(importlib.import_module(modname), fname)
+            pos, kw = [], {}
+            for x in a[1:]:
+                if isinstance(x, T) and x.op == 'kw':
+                    kw[x.args[0]] = ev(x.args[1], val, hooks)
+                else:
+                    pos.append(ev(x, val, hooks))
+            try:
+                return fn(*pos, **kw)
+            except (ValueError, TypeError, LookupError, OverflowError) as e:
+                raise Raised(type(e).__name__)
         if op == 'mcall':
             base = ev(a[0], val, hooks)
             args = [None if (isinstance(x, T) and x.op == 'kw')
